@@ -98,6 +98,10 @@ const nHandshakePolicies = 12 // the window only acts after the handshake
 
 var sizeMenu = []int{0, 1, 2, 15, 16, 17, 4096, 65536}
 
+// bigMenu: single application writes well beyond any internal buffer size a
+// transport might use (io.Copy's 32 KiB, 64 KiB), deliberately not multiples of them.
+var bigMenu = []int{32767, 32769, 40000, 65535, 65537, 98305, 100001, 131073, 200003}
+
 const (
 	prRealReal = iota
 	prRefInit  // reference initiator <-> real server
@@ -129,12 +133,13 @@ type params struct {
 	steerC       int64 // same for the real client
 	refReadFirst bool  // the reference parses the peer's message before sending its own
 	edgeSeed     int   // 0: PRNG seeds; 1: every SEED of the connection (reference's and steered real ones) all-zero; 2: all-ones
+	big          int   // > 0: both sides' scripts are {small, bigMenu[big-1], small, another big, small}
 	seed         uint64
 }
 
 func (p params) String() string {
-	return fmt.Sprintf("pairing=%s scenario=%s c2s=%s s2c=%s refpad=%d steer(server,client)=(%d,%d) refreadfirst=%v edgeseed=%d seed=%x",
-		pairingNames[p.pairing], scenarioNames[p.scenario], policies[p.polC2S].name, policies[p.polS2C].name, p.refPad, p.steerS, p.steerC, p.refReadFirst, p.edgeSeed, p.seed)
+	return fmt.Sprintf("pairing=%s scenario=%s c2s=%s s2c=%s refpad=%d steer(server,client)=(%d,%d) refreadfirst=%v edgeseed=%d big=%d seed=%x",
+		pairingNames[p.pairing], scenarioNames[p.scenario], policies[p.polC2S].name, policies[p.polS2C].name, p.refPad, p.steerS, p.steerC, p.refReadFirst, p.edgeSeed, p.big, p.seed)
 }
 
 func script(rng interface{ IntN(int) int }, n, maxTotal int) []int {
@@ -221,6 +226,13 @@ func runConn(c *mon.Case, r *mon.Run, p params) {
 		}
 	}
 	cScript, sScript := script(rng, nW, maxTotal), script(rng, nW, maxTotal)
+	if p.big > 0 {
+		b := bigMenu[(p.big-1)%len(bigMenu)]
+		b2 := bigMenu[(p.big+3)%len(bigMenu)]
+		cScript, sScript = []int{rng.IntN(200), b, 1 + rng.IntN(3000), b2, 17}, []int{b, 1 + rng.IntN(200), b2, 3000, 1}
+		nW = 5
+		r.Count("big_write_connections", 1)
+	}
 	gaps := func() []time.Duration {
 		g := make([]time.Duration, nW)
 		for i := range g {
@@ -867,6 +879,27 @@ func TestCheck(t *testing.T) {
 				})
 			}
 		}
+	}
+
+	r.Note("big_writes", "additional family: both sides perform single application writes of 32767..200003 bytes (not multiples of 32 KiB / 64 KiB) between small writes, under all-available / PRNG / 4 KiB-window chunking; counted as big_write_connections")
+	// ---- part 1b: single large application writes (not multiples of 32 KiB / 64 KiB)
+	for pairing := 0; pairing < nPairings; pairing++ {
+		pairing := pairing
+		r.Case("big-writes/"+pairingNames[pairing], func(c *mon.Case) {
+			for bi := range bigMenu {
+				for vi, v := range [][3]int{{scClientFirst, 0, 0}, {scBothAtOnce, 11, 12}, {scLockstep, 12, 11}} {
+					if !r.Thorough() && (bi+vi)%3 != 0 {
+						continue
+					}
+					seed := r.Sub("big", pairing, bi, vi)
+					p := params{pairing: pairing, scenario: v[0], polC2S: v[1], polS2C: v[2], refPad: -1, steerS: -1, steerC: -1, big: bi + 1, seed: seed}
+					if pairing != prRealReal {
+						p.refPad = int(seed % uint64(ref.MaxPadding+1))
+					}
+					bubble(c, p.String(), func() { runConn(c, r, p) })
+				}
+			}
+		})
 	}
 
 	// ---- part 2: every reference padding length, both roles
